@@ -1,10 +1,12 @@
 From Coq Require Import Extraction ExtrOcamlBasic QArith ZArith NArith.
 From SF Require Import Model.SetOpSpec Model.OverlayComplex.
 From SF Require Import Base.GeomAST Base.QKernel Base.Planar Model.RelatePatterns Model.Relate Model.RelateComplex.
+From SF Require Import Model.Intersects Proofs.Intersects_polypoly.
 Extraction Language OCaml.
 Extraction "model.ml" relate relate_unfixed preds preds_unfixed go_preds relate_matches enc_matrix
   matrix_list de9im_ref dimension dimension_ie is_empty strip_empty_members members_disjoint
   inG locate pair_witnesses transpose inject_Z Qred Z.add Z.mul Z.opp Z.to_pos
   N.add N.mul N.of_nat N.to_nat geom_type cF c0 c1 c2
   matrix_of_complex incidents_agree vertex_loc edge_loc face_loc swap_x dcel_ok
-  witnesses prep locate_p on_seg pt_eqb arr_segments arr_points Qcompare Qle_bool Qeq_bool Qplus Qminus Qmult Qdiv cross.
+  witnesses prep locate_p on_seg pt_eqb arr_segments arr_points Qcompare Qle_bool Qeq_bool Qplus Qminus Qmult Qdiv cross
+  intersects operand_okb.
